@@ -4,6 +4,10 @@ use serde_json::Value;
 
 pub mod c01;
 pub mod c02;
+pub mod c03;
+pub mod c04;
+pub mod c12;
+pub mod ench;
 pub mod c10;
 pub mod dech;
 
@@ -11,6 +15,9 @@ pub fn run(ctx: &Ctx) -> i32 {
     match ctx.prop.as_str() {
         "C01" => c01::run(ctx),
         "C02" => c02::run(ctx),
+        "C03" => c03::run(ctx),
+        "C04" => c04::run(ctx),
+        "C12" => c12::run(ctx),
         "C10" => c10::run(ctx),
         _ => {
             eprintln!("unknown property {}", ctx.prop);
@@ -40,6 +47,9 @@ pub fn replay(path: &str) -> i32 {
     let viols: Option<Vec<Violation>> = match prop {
         "C01" => c01::replay(&case),
         "C02" => c02::replay(&case),
+        "C03" => c03::replay(&case),
+        "C04" => c04::replay(&case),
+        "C12" => c12::replay(&case),
         "C10" => c10::replay(&case),
         _ => None,
     };
